@@ -524,6 +524,12 @@ func stateConcurrent(e *Env) {
 				// keep to letters whose meaning does not depend on what another
 				// task does in between (unspecified argument consumption)
 				op = tOp{"ChannelModes", []string{op.A[0], []string{"+n", "-n", "+s", "+t-s", "+i"}[g.Intn(5)]}}
+				if g.Pct(40) {
+					// one privilege letter and its nick (in last position, so that what
+					// happens when the nick is not on the channel is specified): the
+					// privilege struct is shared by the channel's and the nick's side
+					op = tOp{"ChannelModes", []string{op.A[0], []string{"+o", "-o", "+v", "-v", "+h", "+q", "-a"}[g.Intn(7)], u.nicks[g.Intn(len(u.nicks))]}}
+				}
 			}
 			// readers matter as much as writers here: a snapshot taken while
 			// another task is half-way through a mutation is what breaks atomicity
